@@ -141,7 +141,17 @@ class quadtree(object):
 
     def search(self, pos):
         leaf = self.leaf(pos)
-        if leaf: return leaf.search_wave(pos)
+        if leaf:
+            elt = leaf.search_wave(pos)
+            if elt is None:
+                # the element containing pos need not be linked to the
+                # leaf's elements by neighbours overlapping the leaf
+                # (e.g. across a gap in the grid), so check the rest:
+                for elt in self.all_elements:
+                    if elt.near_point(pos) and elt.contains_point(pos):
+                        return elt
+                return None
+            return elt
         else: return None
 
     def leaf(self, pos):
